@@ -7,10 +7,10 @@ import cli as C
 MODES = [("unset", None), ("sandboxed", "sandboxed"), ("safe", "safe"), ("unsafe", "unsafe"), ("garbage", "totally-unknown"), ("empty", ""), ("upper", "SAFE")]
 
 
-def run_script(script_text, mode, extra_files=None):
+def run_script(script_text, mode, extra_files=None, extra_attrs=""):
     root = C.tmp_root()
     try:
-        files = [("t.py", "# <block name=\"probe\" check-lua=\"probe.lua\">\nx\n# </block>\n"), ("probe.lua", script_text),
+        files = [("t.py", "# <block name=\"probe\" check-lua=\"probe.lua\"" + extra_attrs + ">\nx\n# </block>\n"), ("probe.lua", script_text),
                  ("secret.lua", "return \"secret-value\"\n"), ("victim.txt", "v\n")] + (extra_files or [])
         C.materialise(root, files)
         env = {"BLOCKWATCH_TERMINAL_MODE": "1"}
